@@ -655,26 +655,33 @@ fn alloc(n: usize) -> bool {
     let mut rng = Rng::new(seed());
     // (original_count, recovery_count, shard_bytes, non-growing alternatives to reset to and back from)
     // high rate with long shards; low rate (its decode evaluates the locator over the whole field); many positions with
-    // 64-byte shards (there the index bitmap, 1 bit per position, is the larger part of what a reset could re-allocate)
-    let scen: [(usize, usize, usize, [(usize, usize, usize); 4]); 3] = [
+    // 64-byte shards (there the index bitmap, 1 bit per position, is the larger part of what a reset could re-allocate);
+    // a shard size whose successor needs exactly the same number of 64-byte blocks (a reset that asks for more than the need)
+    let scen: [(usize, usize, usize, [(usize, usize, usize); 4]); 4] = [
         (20, 12, 4096, [(20, 12, 4096), (12, 20, 4096), (4, 2, 64), (20, 12, 4094)]),
         (12, 20, 1024, [(12, 20, 1024), (20, 12, 512), (2, 4, 64), (12, 20, 1022)]),
         (2048, 2048, 64, [(1024, 1024, 64), (2048, 100, 64), (100, 2048, 64), (2048, 2048, 62)]),
+        (8, 4, 1000, [(8, 4, 1024), (8, 4, 1024), (8, 4, 962), (4, 8, 1024)]),
     ];
     for (k, r, sb, alts) in scen {
-        if !alloc_scenario(&mut rng, k, r, sb, &alts, n) { return false; }
+        let mut ok = true;
+        each_engine!(name, mk, {
+            // the naive engine is quadratic: not on the large configuration
+            if ok && !(name == "naive" && k > 100) { ok = alloc_scenario(&mut rng, name, mk, k, r, sb, &alts, if k > 100 { n.min(6) } else { n }); }
+        });
+        if !ok { return false; }
     }
     true
 }
 
-fn alloc_scenario(rng: &mut Rng, k: usize, r: usize, sb: usize, alts: &[(usize, usize, usize); 4], n: usize) -> bool {
+fn alloc_scenario<E: Engine, F: Fn() -> E>(rng: &mut Rng, name: &str, mk: F, k: usize, r: usize, sb: usize, alts: &[(usize, usize, usize); 4], n: usize) -> bool {
     use std::sync::atomic::Ordering::Relaxed;
     // one 64-byte block is the unit of working space: an allocation of at least that much inside a round or a non-growing
     // reset is working space being allocated again (shard buffer, index bitmap of a large configuration, per-round scratch)
     let thresh = 64usize;
     let data = rand_data(rng, k, sb);
-    let mut e = ReedSolomonEncoder::new(k, r, sb).unwrap();
-    let mut d = ReedSolomonDecoder::new(k, r, sb).unwrap();
+    let mut e = DefaultRateEncoder::<E>::new(k, r, sb, mk(), None).unwrap();
+    let mut d = DefaultRateDecoder::<E>::new(k, r, sb, mk(), None).unwrap();
     for s in &data { e.add_original_shard(s).unwrap(); }
     let rec: Vec<Vec<u8>> = e.encode().unwrap().recovery_iter().map(|s| s.to_vec()).collect();
     let miss = r.min(k);     // originals 0..miss are not given: the decoder has to restore them
@@ -690,16 +697,16 @@ fn alloc_scenario(rng: &mut Rng, k: usize, r: usize, sb: usize, alts: &[(usize, 
         for j in 0..miss { d.add_recovery_shard(j, &rec[j]).unwrap(); }
         { let res = d.decode().unwrap(); let _ = res.restored_original(0).unwrap()[0]; }
         if round % 3 == 2 {
-            // non-growing resets: smaller or equal work space, either rate, then back to what the object already held
+            // non-growing resets: no more work space than is held, either rate, then back to what the object already held
             let (k2, r2, sb2) = alts[rng.below(4)];
             e.reset(k2, r2, sb2).unwrap(); d.reset(k2, r2, sb2).unwrap();
             e.reset(k, r, sb).unwrap(); d.reset(k, r, sb).unwrap();
         }
         let big = BIG.load(Relaxed);
-        if big != 0 { THRESH.store(usize::MAX, Relaxed); println!("FAIL alloc {}:{} x {} bytes: {} allocation(s) of >= {} bytes in round {}", k, r, sb, big, thresh, round); return false; }
+        if big != 0 { THRESH.store(usize::MAX, Relaxed); println!("FAIL alloc engine {} {}:{} x {} bytes: {} allocation(s) of >= {} bytes in round {}", name, k, r, sb, big, thresh, round); return false; }
     }
     THRESH.store(usize::MAX, Relaxed);
-    println!("OK alloc {}:{} x {} bytes: {} rounds and non-growing resets without an allocation of >= {} bytes (bounded)", k, r, sb, n, thresh);
+    println!("OK alloc engine {} {}:{} x {} bytes: {} rounds and non-growing resets without an allocation of >= {} bytes (bounded)", name, k, r, sb, n, thresh);
     true
 }
 
